@@ -32,11 +32,15 @@ ITEMS = {
     # with its item, selected or not
     "S": ["fn  s( ){ }"],
     "Q": ["fn  q( ){ qq!( 3,4 ) ; }"],
+    # an item whose formatting REMOVES lines, and an item written with leading blanks
+    "H": ["fn  h(", ")", "{", "}"],
+    "I": ["  struct  I   ;"],
 }
 # lines written before the item that are not part of its own span (outer attributes)
 PRE = {"V": ["#[cfg(unix)]"], "S": ["#[rustfmt::skip::macros(qq)]"]}
 SEQS = [["A", "C", "D"], ["E", "B", "C"], ["C"], ["A", "B", "C", "D"], ["D", "C", "A"], ["B", "A"],
-        ["U", "W", "A"], ["V", "U", "W"], ["W", "V", "D"], ["X", "U", "W"], ["S", "Q"], ["A", "S", "Q", "D"]]
+        ["U", "W", "A"], ["V", "U", "W"], ["W", "V", "D"], ["X", "U", "W"], ["S", "Q"], ["A", "S", "Q", "D"],
+        ["H", "I", "A"], ["A", "H", "I", "D"]]
 
 
 def build_source(seq, gap):
@@ -160,6 +164,14 @@ def run_one(t):
             if out_body[bol:i].strip() == "" and out_body[end:eol].strip() == "":
                 return True
             start = i + 1
+
+    def occurs_exactly(block):
+        """byte for byte: the source lines, with their own indentation, are consecutive lines of
+        the output"""
+        for k in range(len(out_lines) - len(block) + 1):
+            if out_lines[k:k + len(block)] == block:
+                return True
+        return False
     for (it, lo, hi) in spans:
         srcl = ITEMS[it]
         fmt = singles[it]
@@ -171,8 +183,8 @@ def run_one(t):
                 items.append({"lo": lo + 1 + k, "hi": lo + 1 + k, "verbatim": occurs([st]),
                               "formatted": occurs([fmt[1 + k]]), "whole": True})
         else:
-            items.append({"lo": lo, "hi": hi, "verbatim": occurs(srcl), "formatted": occurs(fmt),
-                          "whole": True})
+            items.append({"lo": lo, "hi": hi, "verbatim": occurs_exactly(srcl) if it == "I" else occurs(srcl),
+                          "formatted": occurs(fmt), "whole": True})
     reports = []
     for ln in stderr.split("\n"):
         ln = ln.strip()
@@ -267,7 +279,12 @@ def run(tier, seed, replay=None):
             # is an item of a reorderable run (use / extern crate) itself selected?
             runsel = any(it in "UWVX" and any(a <= hi and lo <= b for (a, b) in g["sel"])
                          for (it, lo, hi) in job[4])
-            v.violation(f"gate:{','.join(bad)}:runsel={runsel}:sel={g['sel']}:seq={[s[0] for s in job[4]]}:"
+            # does a selected range touch the line directly before (or after) an indented item I?
+            # (the recorded defect: such a range drags the item's indentation along)
+            adj = any(it == "I" and any(a <= lo - 1 <= b or a <= hi + 1 <= b for (a, b) in g["sel"])
+                      for (it, lo, hi) in job[4])
+            adjs = f"adjI={adj}:" if any(it == "I" for (it, _, _) in job[4]) else ""
+            v.violation(f"gate:{','.join(bad)}:{adjs}runsel={runsel}:sel={g['sel']}:seq={[s[0] for s in job[4]]}:"
                         f"mode={job[6]}:{core.fnv(job[3].encode()) % 1000}:{'-'.join(x for x in job[8] if not x.startswith('--')) if job[8] else ''}",
                         f"{bad} with --file-lines {g['sel']} ({job[6]}): items {g['items']} "
                         f"reports {g['reports']}", {"source": job[3], "sel": g["sel"], "mode": job[6],
